@@ -310,3 +310,31 @@ def sign_of(e) -> int:
     if c is not None and c < 0:
         return -1
     return 1
+
+
+def stmt_lists(body, guards=()):
+    """Every statement list nested in `body` (not inside nested defs) with the chain of enclosing headers:
+    yields (list, guards) where guards = ((kind, node, polarity), ...) with kind 'if' / 'loop' / 'try' / 'with'."""
+    body = list(body)
+    yield body, tuple(guards)
+    for s in body:
+        if isinstance(s, SCOPE_NODES):
+            continue
+        if isinstance(s, ast.If):
+            yield from stmt_lists(s.body, tuple(guards) + (("if", s.test, True),))
+            if s.orelse:
+                yield from stmt_lists(s.orelse, tuple(guards) + (("if", s.test, False),))
+        elif isinstance(s, (ast.For, ast.AsyncFor, ast.While)):
+            yield from stmt_lists(s.body, tuple(guards) + (("loop", s, True),))
+            if s.orelse:
+                yield from stmt_lists(s.orelse, tuple(guards))
+        elif isinstance(s, ast.Try):
+            yield from stmt_lists(s.body, tuple(guards) + (("try", s, True),))
+            for h in s.handlers:
+                yield from stmt_lists(h.body, tuple(guards) + (("try", s, False),))
+            if s.orelse:
+                yield from stmt_lists(s.orelse, tuple(guards) + (("try", s, True),))
+            if s.finalbody:
+                yield from stmt_lists(s.finalbody, tuple(guards))
+        elif isinstance(s, (ast.With, ast.AsyncWith)):
+            yield from stmt_lists(s.body, tuple(guards))
